@@ -550,3 +550,165 @@ Proof.
   intros H. apply authorized_spec in H. unfold rest_run, rest_run_with. rewrite H. cbn [negb authorized open_env re_creds re_redirect].
   destruct (resolve rest_strict_slash (compile_rest rest_routes) (rr_meth rq) (segments (rr_path rq)) false); try reflexivity; rewrite handle_open; reflexivity.
 Qed.
+
+(* ------------------------------------------------------------------------------------------ *)
+(* the boolean monitor spec_okb_http: what it means (soundness) and that the model passes it   *)
+(* ------------------------------------------------------------------------------------------ *)
+Definition doc_ok (st nd : N) : Prop := (nd <= 1)%N /\ (st = 200%N -> nd = 1%N).
+Definition doc_okb (st nd : N) : bool := (nd <=? 1)%N && (if N.eqb st 200 then N.eqb nd 1 else true).
+
+Lemma doc_okb_spec st nd : doc_okb st nd = true <-> doc_ok st nd.
+Proof.
+  unfold doc_okb, doc_ok. rewrite andb_true_iff, N.leb_le. destruct (N.eqb st 200) eqn:E.
+  - apply N.eqb_eq in E. rewrite N.eqb_eq. tauto.
+  - apply N.eqb_neq in E. tauto.
+Qed.
+
+Definition answered_err (h : rhandler) (e : renv) (o : robs) : Prop :=
+  (400 <= ro_status o)%N \/ (is_stream h e = true /\ ro_serr o = true).
+Definition answered_errb (h : rhandler) (e : renv) (o : robs) : bool :=
+  (400 <=? ro_status o)%N || (is_stream h e && ro_serr o).
+Lemma answered_errb_spec h e o : answered_errb h e o = true <-> answered_err h e o.
+Proof. unfold answered_errb, answered_err. rewrite orb_true_iff, andb_true_iff, N.leb_le. tauto. Qed.
+
+Definition unrouted (rq : rreq) : Prop :=
+  forall h vars, resolve true route_spec (rr_meth rq) (segments (rr_path rq)) false <> MFull h vars.
+
+(* the property, for one request / environment / observation (status, calls received, documents in the body) *)
+Inductive HttpSpec (rq : rreq) (e : renv) (o : robs) : Prop :=
+| HS_unauth : ~ listed_pair e -> ro_status o = 401%N -> ro_calls o = [] -> (ro_ndocs o <= 1)%N -> HttpSpec rq e o
+| HS_early : listed_pair e -> (rr_preflight rq = true \/ re_redirect e = true) -> ro_calls o = [] -> HttpSpec rq e o
+| HS_slash : listed_pair e -> unrouted rq ->
+    resolve true route_spec (rr_meth rq) (segments (rr_path rq)) false = MRedirect -> ro_calls o = [] -> HttpSpec rq e o
+| HS_unmatched : listed_pair e -> unrouted rq -> ro_calls o = [] ->
+    (400 <= ro_status o < 500)%N -> doc_ok (ro_status o) (ro_ndocs o) -> HttpSpec rq e o
+| HS_refused h vars : routed rq e h vars -> malformed h vars e ->
+    (400 <= ro_status o < 500)%N -> ro_calls o = [] -> doc_ok (ro_status o) (ro_ndocs o) -> HttpSpec rq e o
+| HS_ops h vars exp : routed rq e h vars -> ~ malformed h vars e -> spec_expect h vars (rr_query rq) e = Ops exp ->
+    performed (ro_calls o) exp ->
+    (~ answered_err h e o -> ro_calls o = ok_calls exp) ->
+    (answered_err h e o -> any_failed (ro_calls o) = true \/ imp_failed h e = true) ->
+    ((400 <= ro_status o < 500)%N -> any_failed (ro_calls o) = true \/ ro_calls o = []) ->
+    ((is_stream h e = true /\ ~ (400 <= ro_status o < 500)%N) \/ doc_ok (ro_status o) (ro_ndocs o)) -> HttpSpec rq e o.
+
+Lemma if_nil_true (c : bool) (k : N) : (if c then [] else [k]) = [] -> c = true.
+Proof. destruct c; [reflexivity | discriminate]. Qed.
+Lemma if_nil_false (c : bool) (k : N) : (if c then [k] else []) = [] -> c = false.
+Proof. destruct c; [discriminate | reflexivity]. Qed.
+
+Lemma spec_okb_http_sound rq e o : spec_okb_http rq e o = true -> HttpSpec rq e o.
+Proof.
+  unfold spec_okb_http. rewrite is_nil_true. unfold spec_codes_http.
+  destruct (authorized e) eqn:Ha; cbn [negb].
+  2:{ intros H. apply if_nil_true in H. apply andb_prop in H as [H H3]. apply andb_prop in H as [H1 H2].
+      apply HS_unauth.
+      - rewrite <- authorized_spec. rewrite Ha. discriminate.
+      - apply N.eqb_eq; exact H1.
+      - apply is_nil_true; exact H2.
+      - apply N.leb_le; exact H3. }
+  assert (Hl : listed_pair e) by (apply authorized_spec; exact Ha).
+  destruct (rr_preflight rq || re_redirect e) eqn:Hpr.
+  { intros H. apply if_nil_true in H. apply orb_prop in Hpr. apply HS_early; [exact Hl | exact Hpr | apply is_nil_true; exact H]. }
+  apply orb_false_elim in Hpr as [Hp Hd]. cbv zeta.
+  fold (doc_okb (ro_status o) (ro_ndocs o)).
+  destruct (resolve true route_spec (rr_meth rq) (segments (rr_path rq)) false) as [h vars| | |] eqn:Hm.
+  - (* routed *)
+    assert (Hr : routed rq e h vars) by (repeat split; assumption).
+    destruct (spec_expect h vars (rr_query rq) e) as [|exp] eqn:E.
+    + intros H. apply app_eq_nil in H as [H1 H2]. apply if_nil_true in H1. apply if_nil_true in H2.
+      apply andb_prop in H1 as [H1 H1']. apply HS_refused with (h := h) (vars := vars).
+      * exact Hr.
+      * apply (refuse_iff_malformed h vars (rr_query rq) e). exact E.
+      * apply is4xx_spec; exact H1.
+      * apply is_nil_true; exact H1'.
+      * apply doc_okb_spec; exact H2.
+    + fold (is_stream h e). fold (imp_failed h e). fold (answered_errb h e o).
+      intros H. apply app_eq_nil in H as [H1 H]. apply app_eq_nil in H as [H2 H]. apply app_eq_nil in H as [H3 H4].
+      apply if_nil_false in H1.
+      apply HS_ops with (h := h) (vars := vars) (exp := exp).
+      * exact Hr.
+      * intros Hmal. apply (refuse_iff_malformed h vars (rr_query rq) e) in Hmal. congruence.
+      * exact E.
+      * destruct (answered_errb h e o) eqn:Ae.
+        -- apply if_nil_true in H2. apply prefix_ops_performed; exact H2.
+        -- apply if_nil_true in H2. apply rcalls_eqb_eq in H2. rewrite H2.
+           apply prefix_ops_performed. clear. induction exp as [|[m a] exp IH]; cbn; [reflexivity|].
+           rewrite String.eqb_refl, strs_eqb_refl. exact IH.
+      * intros Hn. destruct (answered_errb h e o) eqn:Ae.
+        -- exfalso. apply Hn. apply answered_errb_spec. exact Ae.
+        -- apply if_nil_true in H2. apply rcalls_eqb_eq. exact H2.
+      * intros Hy. apply answered_errb_spec in Hy. rewrite Hy in H3. cbn [andb] in H3.
+        destruct (any_failed (ro_calls o)); [left; reflexivity|]. destruct (imp_failed h e); [right; reflexivity|].
+        cbn in H3. destruct (is4xx (ro_status o)); discriminate.
+      * intros H4x. apply is4xx_spec in H4x. rewrite H4x in H1. cbn [andb] in H1.
+        destruct (any_failed (ro_calls o)); [left; reflexivity|]. cbn in H1. right. apply is_nil_true. apply negb_false_iff. exact H1.
+      * destruct (is_stream h e && negb (is4xx (ro_status o))) eqn:Es.
+        -- apply andb_prop in Es as [Es1 Es2]. left. split; [exact Es1|]. apply negb_true_iff in Es2. rewrite <- is4xx_spec. rewrite Es2. discriminate.
+        -- right. apply if_nil_true in H4. apply doc_okb_spec. exact H4.
+  - intros H. apply if_nil_true in H. apply HS_slash; [exact Hl | intros h vars; congruence | exact Hm | apply is_nil_true; exact H].
+  - intros H. apply app_eq_nil in H as [H1 H2]. apply if_nil_true in H1. apply if_nil_true in H2. apply andb_prop in H1 as [H1 H1'].
+    apply HS_unmatched; [exact Hl | intros h vars; congruence | apply is_nil_true; exact H1' | apply is4xx_spec; exact H1 | apply doc_okb_spec; exact H2].
+  - intros H. apply app_eq_nil in H as [H1 H2]. apply if_nil_true in H1. apply if_nil_true in H2. apply andb_prop in H1 as [H1 H1'].
+    apply HS_unmatched; [exact Hl | intros h vars; congruence | apply is_nil_true; exact H1' | apply is4xx_spec; exact H1 | apply doc_okb_spec; exact H2].
+Qed.
+
+(* the model's own output as an observation; d = the document count where the model leaves it unstated (301 pages, NDJSON) *)
+Definition robs_of (d : N) (r : rres) : robs :=
+  mk_robs (rs_calls r) (rs_status r) (match rs_ndocs r with Some n => n | None => d end) (rs_serr r).
+
+Lemma ops_codes_nil (PO F E4 L5 SE ST NL LE IM : bool) (k1 k2 k3 k4 : N) :
+  PO && (if E4 || SE then F || (IM && NL) else LE) && (if F then E4 || SE else true) && (if SE then ST else true)
+     && (if E4 && L5 then F else true) = true ->
+  (if E4 && L5 && negb F && negb NL then [k1] else [])
+  ++ (if E4 || (ST && SE) then (if PO then [] else [k2]) else (if LE then [] else [k2]))
+  ++ (if (E4 || (ST && SE)) && negb F && negb IM then [if E4 && L5 then k3 else k4] else []) = [].
+Proof. destruct PO, F, E4, L5, SE, ST, NL, LE, IM; cbn; intros H; try discriminate; reflexivity. Qed.
+
+Lemma app_nil_both {A} (l l' : list A) : l = [] -> l' = [] -> l ++ l' = [].
+Proof. intros -> ->. reflexivity. Qed.
+
+Lemma model_satisfies_http rq e d : spec_okb_http rq e (robs_of d (rest_run rq e)) = true.
+Proof.
+  unfold spec_okb_http. apply is_nil_true. unfold spec_codes_http.
+  destruct (authorized e) eqn:Ha; cbn [negb].
+  2:{ rewrite rest_run_unfold. unfold rest_run_with. rewrite Ha. cbn [negb]. unfold strip_head.
+      destruct (String.eqb (rr_meth rq) "HEAD"); reflexivity. }
+  destruct (rr_preflight rq) eqn:Hp; cbn [orb].
+  { rewrite rest_run_unfold. unfold rest_run_with. rewrite Ha, Hp. cbn [negb]. unfold strip_head.
+    destruct (String.eqb (rr_meth rq) "HEAD"); reflexivity. }
+  destruct (re_redirect e) eqn:Hd.
+  { rewrite rest_run_unfold. unfold rest_run_with. rewrite Ha, Hp, Hd. cbn [negb]. unfold strip_head.
+    destruct (String.eqb (rr_meth rq) "HEAD"); reflexivity. }
+  cbv zeta.
+  destruct (resolve true route_spec (rr_meth rq) (segments (rr_path rq)) false) as [h vars| | |] eqn:Hm.
+  - assert (Hr : routed rq e h vars) by (repeat split; assumption).
+    rewrite (rest_run_routed _ _ _ _ Hr).
+    destruct (spec_expect h vars (rr_query rq) e) as [|exp] eqn:E.
+    + rewrite (handle_refuse _ _ _ _ (routed_known _ _ _ _ Hr) E). reflexivity.
+    + pose proof (handle_ops_b _ _ _ _ _ E) as Hb. set (r := handle h vars (rr_query rq) e) in *.
+      fold (is_stream h e). fold (imp_failed h e).
+      unfold ops_okb in Hb.
+      apply andb_prop in Hb as [Hb H7]. apply andb_prop in Hb as [Hb H6].
+      cbn [robs_of ro_calls ro_status ro_ndocs ro_serr].
+      rewrite !app_assoc. apply app_nil_both.
+      * rewrite <- !app_assoc. unfold is4xx. apply ops_codes_nil.
+        unfold errb, is4xx in Hb.
+        apply andb_prop in Hb as [Hb H5]. apply andb_prop in Hb as [Hb H4]. apply andb_prop in Hb as [Hb H3]. apply andb_prop in Hb as [H1 H2].
+        rewrite H1, H2, H3, H5. cbn [andb]. rewrite andb_true_r.
+        destruct (rs_serr r); [|reflexivity]. apply andb_prop in H4 as [H4 _]. exact H4.
+      * destruct (rs_ndocs r) as [[|p]|].
+        -- apply N.eqb_eq in H6. rewrite H6. destruct (is_stream h e && negb (is4xx 204)); reflexivity.
+        -- destruct p; try discriminate. destruct (is_stream h e && negb (is4xx (rs_status r))); [reflexivity|].
+           cbn. destruct (N.eqb (rs_status r) 200); reflexivity.
+        -- apply andb_prop in H6 as [H6 H6']. apply N.eqb_eq in H6'. rewrite H6, H6'. reflexivity.
+  - rewrite rest_run_unfold. unfold rest_run_with. rewrite Ha, Hp, Hd, Hm. cbn [negb]. unfold strip_head.
+    destruct (String.eqb (rr_meth rq) "HEAD"); reflexivity.
+  - rewrite rest_run_unfold. unfold rest_run_with. rewrite Ha, Hp, Hd, Hm. cbn [negb]. unfold strip_head.
+    destruct (String.eqb (rr_meth rq) "HEAD"); reflexivity.
+  - rewrite rest_run_unfold. unfold rest_run_with. rewrite Ha, Hp, Hd, Hm. cbn [negb]. unfold strip_head.
+    destruct (String.eqb (rr_meth rq) "HEAD"); reflexivity.
+Qed.
+
+(* so: whenever an observation of the implementation equals the model's output, the property holds of it *)
+Lemma model_spec_http rq e d : HttpSpec rq e (robs_of d (rest_run rq e)).
+Proof. apply spec_okb_http_sound. apply model_satisfies_http. Qed.
